@@ -125,18 +125,23 @@ class Generated(Facet):
     def budget(self, tier):
         return (120, 6) if tier == "quick" else (2000, 16)
 
+    # how the judged Grammar object was obtained: the analysis must be the same for all of them
+    VIAS = ("fresh", "fresh", "preprocess-again", "deepcopy", "pickle", "usable-first", "update_weights-by-zero")
+
     def strategy(self, tier):
-        return specs(self.flags).map(lambda s: {"spec": s})
+        from hypothesis import strategies as st
+
+        return st.builds(lambda s, v: {"spec": s, "via": v}, specs(self.flags), st.sampled_from(self.VIAS))
 
     def run(self, case, rec):
         spec = case["spec"]
         mat = materialise(spec)
         try:
-            self._run(spec, mat, rec)
+            self._run(spec, mat, rec, via=case.get("via", "fresh"))
         finally:
             mat.cleanup()
 
-    def _run(self, spec, mat, rec, second=True):
+    def _run(self, spec, mat, rec, second=True, via="fresh"):
         if second and hasattr(mat, "considered") and len(spec["abstracts"]) >= 2:
             # the same classes used for another grammar first (another start symbol): the analysis of
             # the grammar judged below must not depend on what was extracted from the classes before
@@ -154,6 +159,34 @@ class Generated(Facet):
             from vk.world import exc_bucket
 
             rec.fail(f"C05/extract/raised/{exc_bucket(e)}", f"extract_grammar raised {e!r} on {spec_str(spec)}")
+            return
+        rec.label("via:" + via)
+        try:
+            if via == "preprocess-again":
+                g.preprocess()
+            elif via == "deepcopy":
+                import copy
+
+                g = copy.deepcopy(g)
+            elif via == "pickle":
+                import pickle
+
+                try:
+                    blob = pickle.dumps(g)
+                except Exception:  # noqa: BLE001 - not every generated class is picklable
+                    blob = None
+                    rec.label("via:pickle-not-possible")
+                if blob is not None:
+                    g = pickle.loads(blob)
+            elif via == "usable-first":
+                g.usable_grammar()
+                g.usable_grammar()
+            elif via == "update_weights-by-zero":
+                g.update_weights(0.0, {x: 0.0 for x in g.get_weights()})
+        except Exception as e:  # noqa: BLE001
+            from vk.world import exc_bucket
+
+            rec.fail(f"C05/{via}/raised/{exc_bucket(e)}", f"{via} on a freshly extracted grammar raised {e!r}; {spec_str(spec)}")
             return
         classes = mat.classes
         names = mat.names
